@@ -1130,3 +1130,143 @@ contract(
     note="numpy.arange through its arithmetic-progression model; k is a ghost index, universally quantified",
     inline=True,
 )
+
+
+# ---- GCP-based GeoBoxes: every view composes the control-point mapping with the pixel-space map ------------------------------------------
+#
+# The polynomial fit (p2w / w2p) is a pair of UNINTERPRETED functions of the mapping (its quality -- "up to
+# the fit error of the control points" -- is numpy.linalg's, bounded under C20).  What is proved is that a
+# GCPGeoBox is (shape, the SAME mapping object, pixel affine) and that every view operation changes the
+# pixel affine exactly as for linear GeoBoxes, so   new.pix2wld(i, j) == old.pix2wld(phi(i, j)).
+
+GCPM = "odc.geo.gcp"
+
+
+class GhostMapping:
+    """stand-in GCPMapping: .crs, p2w / w2p as uninterpreted functions, control points as ghost geometries"""
+
+    def __init__(self, n_pts=2):
+        self.crs = crs_obj("EPSG:4326")
+        self._n = n_pts
+        if symbolic():
+            import z3
+
+            R = z3.RealSort()
+            self._f = {k: z3.Function(f"gcp_{k}", R, R, R) for k in ("p2w_x", "p2w_y", "w2p_x", "w2p_y")}
+
+    def _ap(self, k, x, y):
+        if not symbolic():
+            c = {"p2w_x": (1.5, 0.25, 0.01), "p2w_y": (-0.5, 2.0, -0.02), "w2p_x": (0.75, -0.125, 0.03), "w2p_y": (0.25, 1.25, 0.015)}[k]
+            return c[0] * x + c[1] * y + c[2] * x * y
+        import z3
+
+        from pyvc.sym import SymReal, term_of
+
+        tx, ty = term_of(x)[0], term_of(y)[0]
+        tx = z3.ToReal(tx) if z3.is_int(tx) else tx
+        ty = z3.ToReal(ty) if z3.is_int(ty) else ty
+        return SymReal(self._f[k](tx, ty))
+
+    def p2w(self, x, y):
+        return self._ap("p2w_x", x, y), self._ap("p2w_y", x, y)
+
+    def w2p(self, x, y):
+        return self._ap("w2p_x", x, y), self._ap("w2p_y", x, y)
+
+
+def _gcp_box(shape, A, M):
+    return repo(GCPM).GCPGeoBox(shape, M, A)
+
+
+def _lemma_gcp_views(ny, nx, A, x, y, padx, pady, r0, r1, c0, c1, alignx):
+    M = GhostMapping()
+    g = _gcp_box((ny, nx), A, M)
+    wx, wy = g.pix2wld(x, y)
+    ax, ay = A * (x, y)
+    ex, ey = M.p2w(ax, ay)
+    claim(And(wx == ex, wy == ey), "pix2wld = control-point fit after the pixel affine")
+    qx, qy = g.wld2pix(x, y)
+    bx, by = M.w2p(x, y)
+    ix, iy = (~A) * (bx, by)
+    claim(And(approx_eq(qx, ix), approx_eq(qy, iy)), "wld2pix = inverse pixel affine after the inverse fit")
+    claim(g.crs is M.crs and g.linear is False and g.axis_aligned is False, "CRS of the control points; not linear")
+
+    def same_fit(h, Mphi, shape_yx, what):
+        claim(h._mapping is M, f"{what}: the SAME control-point mapping (no refit)")
+        claim(aff_eq(h._affine, A * Mphi), f"{what}: pixel (i, j) of the result is pixel phi(i, j) of the original")
+        claim(And(h.shape.y == shape_yx[0], h.shape.x == shape_yx[1]), f"{what}: prescribed shape")
+        claim(h.crs is M.crs, f"{what}: same CRS")
+
+    same_fit(g.pad(padx, pady), T_(-padx, -(padx if pady is None else pady)), (ny + 2 * (padx if pady is None else pady), nx + 2 * padx), "pad")
+    h = g[r0:r1, c0:c1]
+    same_fit(h, T_(c0, r0), (r1 - r0, c1 - c0), "crop")
+    w = g.pad_wh(alignx)
+    claim(w._mapping is M and aff_eq(w._affine, A) and And(w.shape.x % alignx == 0, w.shape.x >= nx, w.shape.x - nx < alignx, w.shape.y % alignx == 0, w.shape.y >= ny, w.shape.y - ny < alignx), "pad_wh: same origin, sides rounded up to the alignment")
+
+
+lemma(
+    "gcp.views_compose_with_the_fit",
+    ["C02"],
+    inputs=dict(ny=Int(ge=1), nx=Int(ge=1), A=AFFINE(), x=Real(), y=Real(), padx=Int(ge=0), pady=OneOf(None, Int(ge=0)), r0=Int(ge=0), r1=Int(), c0=Int(ge=0), c1=Int(), alignx=Int(ge=1)),
+    requires=[lambda A: A.a * A.e - A.b * A.d != 0, lambda ny, nx, r0, r1, c0, c1: And(r0 < r1, r1 <= ny, c0 < c1, c1 <= nx)],
+    body=_lemma_gcp_views,
+    unstub=[f"{GBX}:GeoBoxBase.compute_crop"],
+    ghost_args={},
+    note="p2w / w2p are uninterpreted functions of the (shared) mapping object: the identities hold for ANY fit; fit quality is numpy.linalg's (bounded, C20)",
+)
+
+
+def _lemma_gcp_zoom(ny, nx, A, factor, zy, zx):
+    M = GhostMapping()
+    g = _gcp_box((ny, nx), A, M)
+    z = g.zoom_out(factor)
+    claim(z._mapping is M and aff_eq(z._affine, A * S_(factor, factor)) and z.crs is M.crs, "zoom_out(f): pixel (i, j) is original pixel (i f, j f), same mapping")
+    claim(And(*[And(n >= 1, n * factor >= N, Or(n == 1, (n - 1) * factor < N)) for n, N in zip(z.shape.yx, (ny, nx))]), "zoom_out(f): smallest shape covering the original")
+    t = g.zoom_to((zy, zx))
+    claim(t._mapping is M and And(t.shape.y == zy, t.shape.x == zx), "zoom_to(shape): exactly that shape, same mapping")
+    claim(aff_eq(t._affine, A * S_(div(nx, zx), div(ny, zy))), "zoom_to(shape): pixel (i, j) is original pixel (i nx/zx, j ny/zy)")
+
+
+lemma(
+    "gcp.zoom_composes_with_the_fit",
+    ["C02"],
+    inputs=dict(ny=Int(ge=1), nx=Int(ge=1), A=AFFINE(), factor=Real(gt=0), zy=Int(ge=1), zx=Int(ge=1)),
+    requires=[lambda A: A.a * A.e - A.b * A.d != 0],
+    body=_lemma_gcp_zoom,
+    unstub=[f"{GBX}:GeoBoxBase.compute_zoom_out", f"{GBX}:GeoBoxBase.compute_zoom_to"],
+    ghost_args={},
+)
+
+
+class _GhostPt:
+    def __init__(self, x, y):
+        self.coords = [(x, y)]
+
+
+class _GhostMP:
+    def __init__(self, pts):
+        self.geoms = [_GhostPt(*p) for p in pts]
+
+
+def _lemma_gcp_gcps(ny, nx, A, p0x, p0y, p1x, p1y, w0x, w0y, w1x, w1y):
+    """gcps(): control point k is reported at the pixel of THIS box that lands on its mapping-plane position"""
+    M = GhostMapping()
+    M.points = lambda: (_GhostMP([(p0x, p0y), (p1x, p1y)]), _GhostMP([(w0x, w0y), (w1x, w1y)]))
+    g = _gcp_box((ny, nx), A, M)
+    out = g.gcps()
+    claim(len(out) == 2, "one ground control point per control point, in order")
+    for k, (gp, (px, py), (wx, wy)) in enumerate(zip(out, [(p0x, p0y), (p1x, p1y)], [(w0x, w0y), (w1x, w1y)])):
+        bx, by = A * (gp.col, gp.row)
+        claim(And(approx_eq(bx, px), approx_eq(by, py)), f"point {k}: the pixel affine maps its (col, row) back onto the control point's pixel-plane position")
+        claim(And(gp.x == wx, gp.y == wy), f"point {k}: world coordinates unchanged")
+        claim(gp.id == k, f"point {k}: numbered in order")
+
+
+lemma(
+    "gcp.gcps_in_own_pixel_plane",
+    ["C02", "C09"],
+    inputs=dict(ny=Int(ge=1), nx=Int(ge=1), A=AFFINE(), p0x=Real(), p0y=Real(), p1x=Real(), p1y=Real(), w0x=Real(), w0y=Real(), w1x=Real(), w1y=Real()),
+    requires=[lambda A: A.a * A.e - A.b * A.d != 0],
+    body=_lemma_gcp_gcps,
+    note="what xr_coords stores for a GCP GeoBox (cropped / padded / zoomed boxes included): shapely multipoints are ghost lists of points; rasterio's GroundControlPoint is a plain record",
+)
